@@ -61,15 +61,16 @@ Proof.
 Qed.
 
 (* accepted naive-table setter: stored entry (j,i,l) is the supplied entry (i,j,l), or was dropped *)
-Lemma setT3_entries : forall k n1 n2 n3 t T, shape3 n1 n2 n3 t = true -> setT3 k n1 n2 t = Some T ->
+Lemma setT3_entries : forall fixed k n1 n2 n3 t T, shape3 n1 n2 n3 t = true -> setT3 fixed k n1 n2 t = Some T ->
   forall i j l, (i < n1)%nat -> (j < n2)%nat -> (l < n3)%nat -> entry_kept k (at3 T j i l) (at3 t i j l).
 Proof.
-  intros k n1 n2 n3 t T Hs H i j l Hi Hj Hl. unfold setT3 in H.
+  intros fixed k n1 n2 n3 t T Hs H i j l Hi Hj Hl. unfold setT3 in H.
   destruct (isProbability3 t) eqn:E; [|discriminate]. apply isProbability3_iff_lemma in E.
   destruct (tab_ok_transpose _ _ _ _ _ Hs E) as [L1 L2]. destruct (L2 j Hj) as [L3 L4]. destruct (L4 i Hi) as [L5 _].
-  destruct k; inversion H; subst T.
-  - cbn [entry_kept]. apply at3_transpose; assumption.
-  - rewrite at3_map by lia. rewrite at3_transpose by assumption. apply drop_small_kept.
+  destruct k.
+  - inversion H; subst T. cbn [entry_kept]. apply at3_transpose; assumption.
+  - destruct (fixed && negb (isProbabilityS3f fixed (map (map (map drop_small)) (transpose01 n1 n2 t)))); [discriminate|].
+    inversion H; subst T. rewrite at3_map by lia. rewrite at3_transpose by assumption. apply drop_small_kept.
 Qed.
 
 Lemma qdrop_small_kept : forall x, qentry_kept Sparse (qdrop_small x) x.
@@ -99,13 +100,13 @@ Proof.
   intros fixed k m o m' H. destruct o; cbn [setter] in H; try discriminate.
   - (* SetT3 *)
     destruct (shape3 (mS m) (mA m) (mS m) t) eqn:Es; cbn [negb] in H; [|discriminate].
-    destruct (setT3 k (mS m) (mA m) t) as [T|] eqn:ET; [|discriminate]. inversion H; subst m'.
+    destruct (setT3 fixed k (mS m) (mA m) t) as [T|] eqn:ET; [|discriminate]. inversion H; subst m'.
     unfold effect. cbn [mS mA mT mR mD]. repeat split.
     intros s a s1 Hs Ha Hs1. eapply setT3_entries; eassumption.
   - (* SetTM *)
     destruct (shape3 (mA m) (mS m) (mS m) t) eqn:Es; cbn [negb] in H; [|discriminate].
-    destruct (setTM k t) as [T|] eqn:ET; [|discriminate]. inversion H; subst m'.
-    unfold effect. cbn [mS mA mT mR mD]. repeat split. exact (proj1 (setTM_ok _ _ _ _ _ _ Es ET)).
+    destruct (setTM fixed k t) as [T|] eqn:ET; [|discriminate]. inversion H; subst m'.
+    unfold effect. cbn [mS mA mT mR mD]. repeat split. exact (setTM_same _ _ _ _ ET).
   - (* SetR3 *)
     destruct (shape3 (mS m) (mA m) (mS m) r) eqn:Es; cbn [negb] in H; [|discriminate]. inversion H; subst m'.
     unfold effect, R_at, exp_reward. cbn [mS mA mT mR mD]. repeat split.
@@ -129,7 +130,7 @@ Proof.
   destruct (shape3 s a s t && shape3 s a s r) eqn:Es; cbn [negb] in H; [|discriminate].
   apply andb_true_iff in Es. destruct Es as [Et Er].
   destruct (negb (setDiscount_ok fixed d)); [discriminate|].
-  destruct (setT3 k s a t) as [T|] eqn:ET; [|discriminate]. inversion H; subst m. cbn [mS mA mT mR mD].
+  destruct (setT3 fixed k s a t) as [T|] eqn:ET; [|discriminate]. inversion H; subst m. cbn [mS mA mT mR mD].
   repeat split.
   - intros i j l Hi Hj Hl. eapply setT3_entries; eassumption.
   - intros i j Hi Hj. unfold R_at, exp_reward. cbn [mS mA mT mR mD]. apply rewards3_entries; assumption.
@@ -144,7 +145,7 @@ Lemma psetO3_effect_lemma : forall fixed kb ko p obf p',
 Proof.
   intros fixed kb ko p obf p' H. cbn [psetter] in H.
   destruct (shape3 (mS (pM p)) (mA (pM p)) (pO p) obf) eqn:Es; cbn [negb] in H; [|discriminate].
-  destruct (setO3 ko (mS (pM p)) (mA (pM p)) obf) as [ob|] eqn:EO; [|discriminate]. inversion H; subst p'.
+  destruct (setO3 fixed ko (mS (pM p)) (mA (pM p)) obf) as [ob|] eqn:EO; [|discriminate]. inversion H; subst p'.
   cbn [pM pO pOb]. repeat split. intros s1 a o Hs Ha Ho. rewrite setO3_eq in EO. eapply setT3_entries; eassumption.
 Qed.
 
@@ -153,8 +154,8 @@ Lemma psetOM_effect_lemma : forall fixed kb ko p obf p',
 Proof.
   intros fixed kb ko p obf p' H. cbn [psetter] in H.
   destruct (shape3 (mA (pM p)) (mS (pM p)) (pO p) obf) eqn:Es; cbn [negb] in H; [|discriminate].
-  destruct (setTM ko obf) as [ob|] eqn:EO; [|discriminate]. inversion H; subst p'. cbn [pM pO pOb].
-  repeat split. exact (proj1 (setTM_ok _ _ _ _ _ _ Es EO)).
+  destruct (setTM fixed ko obf) as [ob|] eqn:EO; [|discriminate]. inversion H; subst p'. cbn [pM pO pOb].
+  repeat split. exact (setTM_same _ _ _ _ EO).
 Qed.
 
 (* ---------------------------------------------------------------- sparse setter: stored rows can miss 1 by more than epsS *)
@@ -163,15 +164,41 @@ Definition sparse_drop_ops : list op :=
    SetT3 [[[XFin (9999982 # 10000000); XFin (9 # 10000000); XFin (9 # 10000000)]];
           [[XFin 0; XFin 1; XFin 0]]; [[XFin 0; XFin 0; XFin 1]]]].
 
+(* pinned commit (fixed = false): accepted, stored row misses 1 by 1.8e-6;
+   repaired code (fixed = true): the same call throws and the identity rows stay *)
 Lemma sparse_rows_within_epsS_refuted_lemma :
-  exists m, run true Sparse sparse_drop_ops = Some m /\
-            nth 0 (nth 0 (mT m) []) [] = [XFin (9999982 # 10000000); XFin 0; XFin 0] /\
-            valid_model_k Sparse m /\ ~ valid_model m.
+  (exists m, run false Sparse sparse_drop_ops = Some m /\
+             nth 0 (nth 0 (mT m) []) [] = [XFin (9999982 # 10000000); XFin 0; XFin 0] /\
+             valid_model_k0b Sparse m = true /\ ~ valid_model m) /\
+  (exists m, run true Sparse sparse_drop_ops = Some m /\ mT m = identity3 3 1).
 Proof.
-  eexists. split; [vm_compute; reflexivity|]. split; [reflexivity|]. split.
-  - apply valid_model_kb_sound. vm_compute. reflexivity.
-  - intros [[_ HT] _]. cbn [mA mS mT] in HT. destruct (HT 0%nat) as [_ H0]; [lia|].
+  split.
+  - eexists. split; [vm_compute; reflexivity|]. split; [reflexivity|]. split; [vm_compute; reflexivity|].
+    intros [[_ HT] _]. cbn [mA mS mT] in HT. destruct (HT 0%nat) as [_ H0]; [lia|].
     destruct (H0 0%nat) as [_ [ql [E [_ [L _]]]]]; [lia|]. cbn [nth] in E.
     change [XFin (9999982 # 10000000); XFin 0; XFin 0] with (map XFin [9999982 # 10000000; 0; 0]) in E.
     apply map_XFin_inj in E. subst ql. revert L. unfold epsS. cbn [qsum]. unfold Qle. cbn. lia.
+  - eexists. split; vm_compute; reflexivity.
+Qed.
+
+(* pinned commit: setTransitionFunction(SparseMatrix3D) stores a row with a negative entry *)
+Definition sparse_neg_ops : list op :=
+  [Ctor3 2 1 (XFin 1); SetTM [[neg_row_witness; [XFin 0; XFin 1]]]].
+Lemma sparse_negative_stored_refuted_lemma :
+  (exists m, run false Sparse sparse_neg_ops = Some m /\ nth 0 (nth 0 (mT m) []) [] = neg_row_witness) /\
+  (exists m, run true Sparse sparse_neg_ops = Some m /\ mT m = identity3 2 1).
+Proof. split; eexists; split; vm_compute; reflexivity. Qed.
+
+(* ---------------------------------------------------------------- the reward oracle is sound *)
+Lemma rewards_okb_sound : forall k m r, rewards_okb k 0 m r = true ->
+  forall s a, (s < mS m)%nat -> (a < mA m)%nat -> qentry_kept k (R_at m s a) (exp_reward m r s a).
+Proof.
+  intros k m r H s a Hs Ha. unfold rewards_okb in H. rewrite forallb_forall in H.
+  assert (Hin : In s (seq 0 (mS m))) by (apply in_seq; lia). specialize (H s Hin).
+  rewrite forallb_forall in H. assert (Hia : In a (seq 0 (mA m))) by (apply in_seq; lia). specialize (H a Hia).
+  unfold reward_entry_okb in H. apply orb_true_iff in H. destruct H as [H|H].
+  - apply Qle_bool_iff in H. apply qabs_le in H. destruct k; cbn [qentry_kept]; [lra| left; lra].
+  - destruct k; [discriminate|]. apply andb_true_iff in H. destruct H as [H0 H1].
+    apply Qeq_bool_iff in H0. apply Qle_bool_iff in H1. apply qabs_le in H1. cbn [qentry_kept]. right.
+    split; [exact H0|]. split; lra.
 Qed.
